@@ -11,7 +11,7 @@ RULE = ("quick: every RGB colour on a 17^3 grid + all channel-edge combinations 
 ASSUMPTIONS = ["STANDARD_PALETTE / WINDOWS_PALETTE contents are data (the 16 target entries); the 8-bit "
                "palette is cross-checked against docs/source/appendix/colors.rst and the xterm definition",
                "the metric is Rich's weighted-RGB 'redmean' formula, re-coded independently"]
-REQUIRED = ["mon.rendered_conversion", "mon.rule_256", "mon.rendered_default_over_colour", "mon.constructor_route", "mon.downgrade", "mon.idempotent", "mon.argmin", "mon.ansi_codes", "mon.grey", "mon.palette_row"]
+REQUIRED = ["mon.rendered_conversion", "mon.rule_256", "mon.rendered_default_over_colour", "mon.constructor_route", "mon.downgrade", "mon.idempotent", "mon.argmin", "mon.ansi_codes", "mon.grey", "mon.palette_row", "mon.palettes_shown_before", "mon.saturation_boundary"]
 MIN_NONTRIVIAL = {"quick": 5000, "thorough": 1000000}
 EXHAUSTIVE = {"quick": False, "thorough": True}
 
